@@ -163,6 +163,10 @@ def run(ctx: Ctx):
         for body in (f"    assert {cls}(a=1, b=2) == snapshot({cls}(a=9, b=snapshot()))\n", f"    assert [{cls}(a=1, b=2)] == snapshot([{cls}(a=9, b=snapshot())])\n    assert 3 == snapshot(4)\n",
                      f"    assert {cls}(a=1, b=2) == snapshot({cls}(a=9, b=snapshot(5)))\n"):
             progs.append({"source": HI + body, "sites": [{"kind": "eq", "old": 1, "new": ("int", 1)}] * 2, "opts": {}})
+    # corpus: attrs classes with private attributes / aliases, previous content with other values
+    HA = ("import attrs\nfrom inline_snapshot import snapshot\n\n\n@attrs.define\nclass PA:\n    _x: int\n    y: int = 0\n    z: int = attrs.field(default=1, alias='zed')\n\n\ndef test_a():\n")
+    for body in ("    assert PA(1, 2, 5) == snapshot(PA(x=0, y=2))\n    assert 3 == snapshot(4)\n", "    assert PA(1) == snapshot(PA(x=1, y=7, zed=9))\n", "    assert [PA(1, 2)] == snapshot([PA(x=1)])\n"):
+        progs.append({"source": HA + body, "sites": [{"kind": "eq", "old": 1, "new": ("int", 1)}] * 2, "opts": {}})
     res = pmap(run_prog, progs, chunksize=4)
     for p, o in zip(progs, res):
         from ..valgen import nontrivial
